@@ -218,7 +218,7 @@ def gen_scenarios(module, cfg_prefix, consts, edges=True, timeout=1500, key=lamb
 
 # ---------------------------------------------------------------- trace validation
 
-def validate_traces(module, cfg, trace_files, timeout=900, heap="3g", par=None, extra_env=None):
+def validate_traces(module, cfg, trace_files, timeout=900, heap="3g", par=None, extra_env=None, consts=None):
     """Run the total-monitor trace spec on each ndjson file (in parallel). Returns
     (bad, nlines, states) where bad is a list of dicts {file, t, i, rule,...} printed
     by the monitor's POSTCONDITION. A monitor that does not consume its whole trace
@@ -235,7 +235,7 @@ def validate_traces(module, cfg, trace_files, timeout=900, heap="3g", par=None, 
         env = {"VTRACE": tf}
         if extra_env:
             env.update(extra_env)
-        r = tlc(module, cfg, workers=1, timeout=timeout, env=env, heap=heap, specdir=d, name="val")
+        r = tlc(module, cfg, workers=1, timeout=timeout, env=env, heap=heap, specdir=d, name="val", consts=consts)
         return tf, n, r
 
     with cf.ThreadPoolExecutor(max_workers=par) as ex:
